@@ -70,9 +70,10 @@ def ret_summary(facts, fid):
     """Set of enum constants a function can return (all its returns are enum constants), else None."""
     if facts is None or fid is None:
         return None
-    key = (id(facts), fid)
-    if key in _RET_MEMO:
-        return _RET_MEMO[key]
+    memo = facts.__dict__.setdefault('_ret_memo', {})
+    key = fid
+    if key in memo:
+        return memo[key]
     g = facts.get(fid)
     res = None
     if g is not None and _is_enum_ty(g.raw.get('ret')):
@@ -96,7 +97,7 @@ def ret_summary(facts, fid):
                 vals |= cs
         if ok and vals:
             res = frozenset(vals)
-    _RET_MEMO[key] = res
+    memo[key] = res
     return res
 
 
@@ -570,4 +571,31 @@ def assigned_var(f, n):
         a0 = f.strip(f.node(p['args'][0]), casts=True)
         if a0 is not None and a0 is not f.strip(n, casts=True) and a0['k'] == 'DeclRefExpr':
             return a0.get('id')
+    return None
+
+
+def eval_bool(t, atoms):
+    """Truth of a condition term given the truth of atomic condition terms established on the path (None = unknown).
+    Needed where clang's CFG materialises `a && b` as a value and branches on `!(a && b)` in a join block."""
+    if t in atoms:
+        return atoms[t]
+    if t[0] == 'un' and t[1] == '!':
+        v = eval_bool(t[2], atoms)
+        return None if v is None else (not v)
+    if t[0] == 'bin' and t[1] == '&&':
+        a, b = eval_bool(t[2], atoms), eval_bool(t[3], atoms)
+        if a is False or b is False:
+            return False
+        if a is True and b is True:
+            return True
+        return None
+    if t[0] == 'bin' and t[1] == '||':
+        a, b = eval_bool(t[2], atoms), eval_bool(t[3], atoms)
+        if a is True or b is True:
+            return True
+        if a is False and b is False:
+            return False
+        return None
+    if t[0] == 'const':
+        return bool(t[1])
     return None
